@@ -19,7 +19,7 @@ RULE = ('bounded exhaustive enumeration of source texts, each parsed by the real
         '1..len+1 constructed directly; (nesting) parenthesis/unary/call nesting to the depth bound in every statement kind; '
         '(contin) backslash runs 1..8 with the fault in every piece; (bsonly) backslash-only physical lines before every piece of '
         'a continued statement and as the last lines of the input; (linechars) FF, VT, FS, GS, RS, NEL, U+2028, U+2029 and a lone CR '
-        'inside a comment, a string literal and as white space, before and on a faulty line; (prefix) every prefix of 1..3 comment/blank/statement '
+        'inside a comment, a string literal and as white space, before and on a faulty line; (includes) every sequence of <= 4 lines over three include lines, an assignment, a comment and a blank, at top level and in a function body; (prefix) every prefix of 1..3 comment/blank/statement '
         'lines x start line {1,7} on base texts of the other families. A case is non-trivial when the text is rejected '
         '(keywords, soup, mutants, prefix), when the line is long enough to be elided (columns, caret), when the depth '
         'exceeds 1 or the text is faulty (nesting, contin, bsonly, linechars).')
@@ -1164,6 +1164,86 @@ def fam_bsonly(arg):
 
 
 # ---------------------------------------------------------------------------------------------------------------------
+# (i) include lines: every include line is one include entry of the model
+
+INC_LINES = ("include 'a.bare'", 'include <a.bare>', "include 'b.bare'", 'xx = 1', '# comment', '')
+INC_ENTRY = {0: ('a.bare', False), 1: ('a.bare', True), 2: ('b.bare', False)}
+INC_CONTEXTS = ('top', 'function')
+
+
+def text_includes(case):
+    lines = [INC_LINES[i] for i in case['idx']]
+    if case['ctx'] == 'function':
+        lines = ['function ff():'] + ['    ' + ln if ln else ln for ln in lines] + ['endfunction']
+    return '\n'.join(lines)
+
+
+def include_entries(model):
+    """(url, system) of every include entry of the model in source order, function bodies in place; None if malformed."""
+    out = []
+    stack = [iter(model['statements'])]
+    while stack:
+        try:
+            st = next(stack[-1])
+        except StopIteration:
+            stack.pop()
+            continue
+        if isinstance(st, dict) and 'function' in st and isinstance(st['function'].get('statements'), list):
+            stack.append(iter(st['function']['statements']))
+        elif isinstance(st, dict) and 'include' in st:
+            incs = st['include'].get('includes') if isinstance(st['include'], dict) else None
+            if not isinstance(incs, list) or not incs:
+                return None
+            for inc in incs:
+                if not isinstance(inc, dict):
+                    return None
+                out.append((inc.get('url'), bool(inc.get('system', False))))
+    return out
+
+
+def check_includes(case, acc):
+    idx = case['idx']
+    text = text_includes(case)
+    res = run(text)
+    acc.evals += 1
+    detail = dict(case, text=text)
+    if res[0] != 'ok':
+        acc.violation(detail, 'the valid text parses', obs(res),
+                      'another exception escapes parse_script' if res[0] == 'host' else 'a valid text of include lines and assignments is rejected')
+        return ('bad',)
+    want = [INC_ENTRY[i] for i in idx if i in INC_ENTRY]
+    got = include_entries(res[1])
+    if got != want:
+        acc.violation(detail, [list(w) for w in want], None if got is None else [list(g) for g in got],
+                      'the include entries of the model (url, system) are not the include lines of the text in order: an include line was dropped, added or changed')
+        return ('includes-differ',)
+    assigns = sum(1 for entry in flatten(res[1]) if not entry.startswith('["include"'))
+    if assigns != sum(1 for i in idx if i == 3):
+        acc.violation(detail, f'{sum(1 for i in idx if i == 3)} assignment statements', assigns, 'the model does not account for every statement line')
+    return (len(want), len(set(want)))
+
+
+def fam_includes(arg):
+    maxlen, heads = arg
+    acc = Acc('includes')
+    seen = Seen(acc)
+    for ctx in INC_CONTEXTS:
+        for head in heads:
+            tails = [()] if len(head) < 1 else itertools.chain.from_iterable(itertools.product(range(len(INC_LINES)), repeat=n) for n in range(0, maxlen))
+            for tail in tails:
+                idx = list(head + tail)
+                acc.cases += 1
+                out = check_includes({'idx': idx, 'ctx': ctx}, acc)
+                seen.add(out)
+                incs = [i for i in idx if i in INC_ENTRY]
+                if len(incs) != len(set(incs)):
+                    acc.nontrivial += 1
+                    if len(acc.samples) < 2 and len(idx) == maxlen and ctx == 'function':
+                        acc.sample({'text': text_includes({'idx': idx, 'ctx': ctx}), 'include_entries_expected': [list(INC_ENTRY[i]) for i in incs]})
+    return acc.result()
+
+
+# ---------------------------------------------------------------------------------------------------------------------
 # (f) prefix metamorphosis
 
 PREFIX_LINES = ('# c', '', 'zz = 1')
@@ -1267,6 +1347,7 @@ def families(tier):
     depth = 3 if quick else 4
     nest = 50 if quick else 100
     bs_run = 3 if quick else 6
+    inc_len = 4 if quick else 6
     ncorpus = len(gen.corpus(depth))
     corpus_expected = sum(count_mutations(lines) for _, lines in gen.corpus(depth))
     ship = gen.shipped()
@@ -1311,6 +1392,10 @@ def families(tier):
                f'1..2 backslash-only lines (4 spacings) before every piece of a statement continued over 1..{bs_run + 1} pieces x '
                f'{len(STMT_KINDS)} kinds x fault in no/each piece/the next line; and as the last lines of the input after '
                f'{len(BS_CONTEXTS)} contexts x {len(BS_TRAILS)} blank/comment trailers', expected=bsonly_expected(bs_run)),
+        Family('includes', fam_includes, [(inc_len, [()])] + [(inc_len, [(i,)]) for i in range(len(INC_LINES))],
+               f'every sequence of 0..{inc_len} lines over {list(INC_LINES)} at top level and as a function body: the include entries of '
+               'the model must be the include lines in order (same line repeated adjacently or with a statement/comment/blank between, '
+               'plain and system form of one name)', expected=2 * sum(len(INC_LINES) ** k for k in range(inc_len + 1))),
         Family('prefix', fam_prefix, [(tier, cuts[i], cuts[i + 1]) for i in range(64) if cuts[i + 1] > cuts[i]],
                f'{nbases} base texts (keyword sequences <= {3 if quick else 4} lines, soup lines <= {2 if quick else 3} tokens, all mutants of '
                f'{4 if quick else 16} corpus programs, fault columns up to {140 if quick else 200}) x {len(PREFIXES)} prefixes of 1..3 lines '
@@ -1319,7 +1404,7 @@ def families(tier):
 
 
 _CHECKS = {'keywords': check_keywords, 'soup': check_soup, 'mutants': check_mutants, 'columns': check_columns, 'caret': check_caret,
-           'nesting': check_nesting, 'contin': check_contin, 'prefix': check_prefix, 'linechars': check_linechars, 'bsonly': check_bsonly}
+           'nesting': check_nesting, 'contin': check_contin, 'prefix': check_prefix, 'linechars': check_linechars, 'bsonly': check_bsonly, 'includes': check_includes}
 
 
 def replay(family, case):
